@@ -34,9 +34,13 @@ right. Tables are generated from `known_findings.json`, `seeded/` and
   on real systems were not built: real remoting blocks `Tell` during
   reconnect back-off (KF-C14-1), which makes wall-clock cluster scenarios with
   crashes take minutes each and their verdicts timing-dependent.
-* **C07** got a second unit (trees with failing / slow terminators from the
-  scenario engine) after a seeded change showed that "any actor tree" was only
-  covered for well-behaved actors.
+* **C07** has three units: the Start/Stop/cancel state machine of the plan
+  (well-behaved actors, one gated actor), "any actor tree" (trees from the
+  scenario engine: failing hooks, zombies, panics while terminating, slow
+  terminators that finish before or only after the Stop timed out), and "with
+  remoting" (real sockets: answering, silent, closed and unreachable peers).
+  The last two were added after seeded changes showed the quantifier was only
+  covered for well-behaved actors without remoting.
 * **Real-time units** (C11, C14, C15) end the worker process at the first
   verdict (`VERIF_FAILFAST`): a failing case there costs up to two minutes and
   rapid's shrinker re-runs it dozens of times even with an expired shrink
@@ -131,6 +135,23 @@ Two genuine defects behind the restart clause were small and are fixed
 (KF-C18-1, KF-C18-2); each needs its own history and each fix is necessary for
 its history (checked by replaying both histories with either fix alone).
 
+### 9.4b Checks that were strengthened because a seeded change was missed at first
+
+| seed | what the check lacked | what was added |
+|---|---|---|
+| C17-1 | entries of one node with independent generation and logical clock | a "learn" operation (foreign incarnations) in the history generator |
+| C12-2 | state carried between two encodings | a rejected encode interleaved with the round-trip, pooled writers |
+| C13-1 | hostile bytes inside strings that are later parsed (whitespace, ASCII control) and the entry point that rebuilds references | both added to the corruption table / decoder list |
+| C09-2 | "restart continued after a failed hook" | same-instance rule: no user code of the failed instance after the hook |
+| C06-1 | a supervisor that respawns a child under the same name from its OnKilled handler | `RespawnKilled` probes and the respawn-storm unit |
+| C19-2 | a subscription to the library's own ActorKilledEvent | event type K |
+| C11-1 / C11-2 | concurrent first contact; frames within 8 bytes of the limit | two generator shapes (own unit for the first) |
+| C14-1 | a frame that decodes but cannot be routed | six kinds of unroutable envelopes injected in front of real frames |
+| C07-2 / C07-3 / C07-4 | misbehaving trees, timed-out stops, remoting | the tree and remoting units, goroutine count after timed-out stops (this found KF-C07-3) |
+| C04-4 | askers that terminate through an abandoned or failed restart or a supervisor's Stop | four more death paths in the generator |
+| C10-4 | named spawns that collide | named top-level and child spawns from all goroutines (this found KF-C10-2), registry-empty check after Stop |
+| C03-3 | whether a "stashed" message is really in the stash | white-box stash length for undisturbed actors, stash-burst shape (m stashed, Unstash(n) for every relation of n to m) |
+
 ### 9.5 Known findings (genuine, not repaired) and why they are not small
 
 * **KF-C14-1** Tell blocks the caller during reconnect back-off. Repair =
@@ -166,7 +187,7 @@ def main():
     out.append("| finding | property | signature |\n|---|---|---|")
     for f in kf:
         if f["status"] == "known":
-            out.append(f"| {f['id']} | {f['property']} | `{f['signature']}` |")
+            out.append(f"| {f['id']} | {f['property']} | `{f['signature'].replace('|', chr(92)+'|')}` |")
     # seeds
     out.append("\n### 9.8 Sensitivity: seeded changes and which check catches them\n")
     out.append("Fresh sub-agents (given one property's text and a scratch worktree, nothing from /verif) produced changes that compile, pass the existing suite and break the property; each was confirmed here (demonstration passes on the current HEAD, fails with the change; `tools/revalidate_seeds.sh` repeats that after every fix commit). `tools/try_all_seeds.sh` applies each to /repo, runs the property's registered quick command and reverts. 'caught by' is the first signature reported.\n")
@@ -188,7 +209,8 @@ def main():
         r = rows.get(sid)
         if r:
             verdict = {"1": "VIOLATION", "0": "**missed**", "2": "inconclusive"}.get(r[3], r[3])
-            out.append(f"| {sid} | {what} | {verdict} | `{r[4]}` | {r[5]} s |")
+            sig = r[4].replace('|', '\\|')
+            out.append(f"| {sid} | {what} | {verdict} | `{sig}` | {r[5]} s |")
         else:
             out.append(f"| {sid} | {what} | (not yet swept) | | |")
     dropped = f"{V}/seeded/dropped/README.md"
